@@ -40,6 +40,13 @@ func (v *Votes) Validate() error {
 }
 
 func (v *Voter) Validate() error {
+	// a pending voter is registered by the hash of its vote key, the key itself arrives with MsgNewVoter
+	if v.Status == VOTER_STATUS_PENDING {
+		if len(v.VoteKey) != sha256.Size {
+			return errors.New("invalid bls pubkey hash length")
+		}
+		return nil
+	}
 	if len(v.VoteKey) != goatcrypto.PubkeyLength {
 		return errors.New("invalid bls pubkey length")
 	}
